@@ -31,6 +31,7 @@ std::string DescribeMempoolOp(const Op& op)
     case MP_CLOCK: snprintf(b, sizeof b, "clock += %lds", (long)op.arg(0)); break;
     case MP_TEMPLATE: snprintf(b, sizeof b, "create_block_template(opts=%ld,%ld,%ld,%ld)", (long)op.arg(0), (long)op.arg(1), (long)op.arg(2), (long)op.arg(3)); break;
     case MP_RESUBMIT: snprintf(b, sizeof b, "resubmit(tx#%ld, test_accept=%ld)", (long)op.arg(0), (long)(op.arg(1) & 1)); break;
+    case MP_TIPDOWN: snprintf(b, sizeof b, "invalidateblock(tip)"); break;
     default: return DescribeChainOp(op);
     }
     return b;
@@ -58,7 +59,14 @@ Plan GenMempoolPlan(uint64_t seed, Tier tier, const std::string& bias)
     else if (bias == "c27") { sw[TS_TRUC] = 30; sw[TS_DUSTY_PARENT] = 10; sw[TS_FANOUT] = 12; sw[TS_CHAIN] = 30; W(MP_REORG) = rng.chance(1, 4) ? 2 : 0; pw[PS_CPFP] = 12; p.knobs["mempool_kb"] = rng.chance(2, 3) ? rng.range(30, 120) : 300000; }
     else if (bias == "c28") { test_accept_pct = 50; sw[TS_INVALID] = 10; sw[TS_NONSTANDARD] = 10; p.knobs["mempool_kb"] = 300000; }
     else if (bias == "c29") { W(MP_PKG) = 45; W(MP_TX) = 25; }
-    else if (bias == "c22") { W(MP_MINE) = 9; W(MP_REORG) = 5; W(MP_CLOCK) = 5; sw[TS_INVALID] = 6; }
+    else if (bias == "c22") {
+        W(MP_MINE) = 9; W(MP_REORG) = 5; W(MP_CLOCK) = 5; sw[TS_INVALID] = 6;
+        // the tip going DOWN without a replacement (relative locks that were just satisfied stop being so), simple transactions whose
+        // BIP68 height lock is satisfied exactly at tip+1, replacements that also spend what they evict
+        W(MP_TIPDOWN) = 3;
+        p.knobs["bip68_exact_pct"] = 20;
+        p.knobs["conflict_spends_evicted_pct"] = 25;
+    }
     // CTxMemPool refuses max_size_bytes below 40 x the cluster size limit: a small mempool needs a small cluster size limit
     if (p.knobs["mempool_kb"] < 300000) {
         p.knobs["cluster_kvb"] = rng.range(1, 3);
@@ -479,7 +487,13 @@ void MempoolSim::ExecOp(const Op& op)
             if (conf_std.empty()) break;
             std::vector<Spendable> ins{take(conf_std, r)};
             if (!conf_std.empty() && r.chance(1, 3)) ins.push_back(take(conf_std, r));
-            tx = MakeTx(ins, split_outs(r, InputSum(ins), (int)r.range(1, 3)), feerate, 0, version, 0, {}, SigDefect::NONE, shape);
+            std::vector<uint32_t> seqs;
+            if (const int64_t pct = ctx.knob("bip68_exact_pct", 0); pct > 0 && r.chance((uint32_t)pct, 100) && next_h - ins[0].coin.height <= 0xffff && next_h > ins[0].coin.height) {
+                // relative height lock satisfied exactly for the next block: valid now, not any more if the tip goes down by one
+                seqs.push_back((uint32_t)(next_h - ins[0].coin.height));
+                ctx.probe("bip68_exact_tx_built");
+            }
+            tx = MakeTx(ins, split_outs(r, InputSum(ins), (int)r.range(1, 3)), feerate, 0, version, 0, seqs, SigDefect::NONE, shape);
             break;
         }
         case TS_CHAIN: {
@@ -521,7 +535,22 @@ void MempoolSim::ExecOp(const Op& op)
             else if (auto ptx = pool().get(vin.prevout.hash); ptx && vin.prevout.n < ptx->vout.size()) coin = RefCoin{ptx->vout[vin.prevout.n].nValue, ptx->vout[vin.prevout.n].scriptPubKey, next_h, false};
             if (!coin || !kr.CanSpend(coin->spk)) break;
             std::vector<Spendable> ins{{vin.prevout, *coin, true}};
-            if (!conf_std.empty() && r.chance(2, 3)) ins.push_back(take(conf_std, r));
+            bool spends_evicted = false;
+            if (const int64_t pct = ctx.knob("conflict_spends_evicted_pct", 0); pct > 0 && r.chance((uint32_t)pct, 100)) {
+                // ... and also spend a free output of the victim or of one of its descendants: must be refused (it would spend what it evicts)
+                std::set<Txid> fam;
+                {
+                    LOCK(pool().cs);
+                    CTxMemPool::setEntries all;
+                    if (auto it = pool().GetIter(victim->GetHash())) pool().CalculateDescendants(*it, all);
+                    for (auto it : all) fam.insert(it->GetTx().GetHash());
+                }
+                std::vector<Spendable> fam_outs;
+                for (auto& u : unconf)
+                    if (fam.count(u.op.hash)) fam_outs.push_back(u);
+                if (!fam_outs.empty()) { ins.push_back(fam_outs[r.below(fam_outs.size())]); spends_evicted = true; ctx.probe("replacement_spending_evicted_output_built"); }
+            }
+            if (!spends_evicted && !conf_std.empty() && r.chance(2, 3)) ins.push_back(take(conf_std, r));
             // threshold: modified fees of everything evicted + incremental relay fee for the replacement's own size
             CAmount evicted_fees = 0;
             {
@@ -800,6 +829,26 @@ void MempoolSim::ExecOp(const Op& op)
     case MP_TEMPLATE:
         if (on_template) on_template(op);
         break;
+    case MP_TIPDOWN: {
+        const int t = TipIdx();
+        if (t <= 0 || cs.ref->blocks[t].height < 3) break;
+        bool related = false;
+        for (int m : cs.manual_invalid)
+            if (cs.ref->IsAncestor(m, t) || cs.ref->IsAncestor(t, m)) related = true;
+        for (int m : cs.manual_maybe)
+            if (cs.ref->IsAncestor(m, t) || cs.ref->IsAncestor(t, m)) related = true;
+        if (related) break;
+        CBlockIndex* pi = WITH_LOCK(cs_main, return node().cm().m_blockman.LookupBlockIndex(cs.ref->blocks[t].hash));
+        if (!pi) break;
+        BlockValidationState st, st2;
+        node().cs().InvalidateBlock(st, pi);
+        node().cs().ActivateBestChain(st2);
+        node().DrainSignals();
+        cs.manual_invalid.insert(t);
+        ctx.probe("tip_invalidated");
+        ctx.evf("invalidate tip #%d -> tip h=%d pool=%lu", t, node().Height(), pool().size());
+        break;
+    }
     default:
         if (op.kind < OP_NCHAINOPS) cs.ExecOp(op);
         break;
